@@ -1,4 +1,5 @@
 import Casket.Model.ProxyMsg
+import Casket.Model.Path
 /-
 C04 as an executable predicate over what was observed at the backend transport (request side)
 and at the client (response side).  Everything is stated per header name, declaratively:
@@ -175,6 +176,22 @@ def verdictReq (hop : List Str) (repl : Str → Str) (u : Upstream) (r o : Reque
     match (reqKeys hop u r o).find? (fun k => o.header.vals k != expectReqVals hop repl u r k) with
     | some k => "bad:" ++ reqHeaderClass hop u r k ++ ":" ++ String.ofList (k.map fun c => Char.ofNat c.toNat)
     | none => "ok"
+
+/-! ### the encoded path names the same path as the decoded one -/
+
+/-- `raw` is absent, or an encoding of `path` (net/url: `unescape(RawPath) = Path`) -/
+def rawOK (path raw : Str) : Bool := raw == [] || Casket.Path.unescape false raw == some path
+
+/-- what net/http and url.Parse guarantee about the URLs the proxy starts from -/
+def inputsConsistent (t u : URL) : Bool := rawOK t.path t.rawPath && rawOK u.path u.rawPath
+
+/-- Whenever the outgoing RawPath is set it must decode to the outgoing Path; otherwise net/url
+discards it when the request is written and the client's spelling of the path (e.g. an escaped
+slash) is lost although the configuration did not ask for that. -/
+def verdictRawPath (u : Upstream) (r o : Request) : String :=
+  if inputsConsistent u.target r.url && !rawOK o.url.path o.url.rawPath then
+    "bad:rawpath-inconsistent:the encoded path sent to the backend does not decode to the path"
+  else "ok"
 
 /-! ### response side -/
 
